@@ -3,7 +3,7 @@
 // Case format (one token list per line):
 //   case <id> <initialSize1> <initialSize2>     start a new case with two buffers
 //   A <payload> | P <payload> | R n | RA | RS n | EW n | HW <payload> | UW n | SH n | SW
-//   RF <payload-available-on-fd> | RFE errno | AI k x | PI k x | KI k | RI k | RN k
+//   RF <payload-available-on-fd> | RFE errno | RF2 <payload A> <payload B> (both buffers readFd CONCURRENTLY, see below) | AI k x | PI k x | KI k | RI k | RN k
 //   FC from | FE from (signed offset of the start pointer from peek()) | FC0 | FE0
 //   RU off (retrieveUntil(peek()+off)) | RAS | TS | IC | AS (second = first)
 //   end
@@ -22,6 +22,7 @@
 
 #include <errno.h>
 #include <fcntl.h>
+#include <pthread.h>
 #include <setjmp.h>
 #include <sys/uio.h>
 #include <unistd.h>
@@ -42,8 +43,20 @@ static size_t g_len0 = 0, g_cap = 0;
 static const void* g_base0 = NULL;
 static int g_inject = 0;
 extern "C" ssize_t __real_readv(int fd, const struct iovec* iov, int cnt);
+// RF2: the two buffers of the case call readFd on two threads, each on its own descriptor.  The wrapper makes the two
+// threads rendezvous AFTER their real readv returned and BEFORE they return into Buffer::readFd, so that both spills
+// (the bytes the kernel put into extrabuf) are in flight at the same time: each buffer must end up with exactly the bytes
+// of ITS descriptor (seeded change C01_4: a `static` extrabuf is shared by all buffers on all threads).
+static bool g_rendezvous = false;
+static pthread_barrier_t g_bar;
 extern "C" ssize_t __wrap_readv(int fd, const struct iovec* iov, int cnt)
 {
+  if (g_rendezvous)
+  {
+    ssize_t r = __real_readv(fd, iov, cnt);
+    pthread_barrier_wait(&g_bar);
+    return r;
+  }
   g_iovcnt = cnt;
   g_len0 = cnt > 0 ? iov[0].iov_len : 0;
   g_base0 = cnt > 0 ? iov[0].iov_base : NULL;
@@ -116,7 +129,25 @@ static string readResult(const Buffer& before_unused, ssize_t n, int err, const 
   return tmp;
 }
 
+static int loadedPipe(const string& avail);
+struct Rf2 { Buffer* b; int fd; ssize_t n; int err; };
+static void* rf2Thread(void* p)
+{
+  Rf2* a = static_cast<Rf2*>(p);
+  a->n = a->b->readFd(a->fd, &a->err);
+  return NULL;
+}
+
 static ssize_t doReadFd(Buffer& b, const string& avail, int* err)
+{
+  int fd = loadedPipe(avail);
+  ssize_t n = b.readFd(fd, err);
+  ::close(fd);
+  return n;
+}
+
+// read end of a pipe pre-loaded with avail (write end closed: an empty pipe reads as 0, like EOF)
+static int loadedPipe(const string& avail)
 {
   int fds[2];
   if (::pipe(fds) != 0) { perror("pipe"); exit(3); }
@@ -131,9 +162,7 @@ static ssize_t doReadFd(Buffer& b, const string& avail, int* err)
     off += static_cast<size_t>(n);
   }
   ::close(fds[1]);   // so that an empty pipe reads as 0, like EOF
-  ssize_t n = b.readFd(fds[0], err);
-  ::close(fds[0]);
-  return n;
+  return fds[0];
 }
 
 int main()
@@ -156,7 +185,7 @@ int main()
     }
     if (k == "end") { printf("end\n"); fflush(stdout); continue; }
     Buffer& b = *a;
-    size_t n = (w.size() > 1 && k != "A" && k != "P" && k != "HW" && k != "RF") ? static_cast<size_t>(atol(w[1].c_str())) : 0;
+    size_t n = (w.size() > 1 && k != "A" && k != "P" && k != "HW" && k != "RF" && k != "RF2") ? static_cast<size_t>(atol(w[1].c_str())) : 0;
     long sn = (w.size() > 1 && (k == "FC" || k == "FE" || k == "RU")) ? atol(w[1].c_str()) : 0;
     if (k == "A") { string d = vh::bytesOfSpec(w[1]); b.append(d.data(), d.size()); show("ok", "-", b); }
     else if (k == "P")
@@ -226,6 +255,24 @@ int main()
       const void* base = b.beginWrite();
       ssize_t r = doReadFd(b, d, &err);
       show("ok", readResult(b, r, err, base), b);
+    }
+    else if (k == "RF2")
+    {
+      string da = vh::bytesOfSpec(w[1]), db = vh::bytesOfSpec(w[2]);
+      Rf2 x = { a.get(), loadedPipe(da), 0, kErrUnset }, y = { c.get(), loadedPipe(db), 0, kErrUnset };
+      pthread_barrier_init(&g_bar, NULL, 2);
+      g_rendezvous = true;
+      pthread_t t1, t2;
+      pthread_create(&t1, NULL, rf2Thread, &x);
+      pthread_create(&t2, NULL, rf2Thread, &y);
+      pthread_join(t1, NULL);
+      pthread_join(t2, NULL);
+      g_rendezvous = false;
+      pthread_barrier_destroy(&g_bar);
+      ::close(x.fd); ::close(y.fd);
+      char t[160];
+      snprintf(t, sizeof t, "rd2:%zd:%zd:%zu:%s", x.n, y.n, c->readableBytes(), vh::fnv(c->peek(), c->readableBytes()).c_str());
+      show("ok", t, b);
     }
     else if (k == "RFE")
     {
